@@ -1,6 +1,7 @@
 package main
 
 import (
+	"path/filepath"
 	"go/ast"
 	"fmt"
 	"go/token"
@@ -1525,6 +1526,7 @@ func (f *frame) atCallObligations(key string, args []SV, pos token.Pos) {
 						// is no variable of the function at all stays an error.
 						if strings.Contains(ce.msg, "#") || f.isSourceVar(ce.msg) {
 							ok = false
+							e.note(fmt.Sprintf("at_call %s clause (%s:%d) says nothing at the call site %s: %s", cs.Callee, filepath.Base(cs.Clause.File), cs.Clause.Line, e.srcText(f.fn, pos, "call"), ce.msg))
 							return
 						}
 					}
